@@ -369,6 +369,8 @@ theorem normExt_ok : ExtOK normExt where
   num_q := by decide
   low_us := fun s => ⟨lower s, by simp [normExt, drvExt, lower, lowerChar]⟩
   low_q := fun s => ⟨lower s, by simp [normExt, drvExt, lower, lowerChar]⟩
+  num_colon := by decide
+  low_colon := fun s h => List.mem_map.mpr ⟨':', h, by decide⟩
 
 theorem n3_roundtrip_witness : ¬ Statement_n3_roundtrip := by
   intro h
@@ -388,6 +390,107 @@ theorem n3_roundtrip_any_lexical (E : Ext) (x : Str) (d l : Option Str) (txt : S
     (h : n3 E (.lit x d l) = some txt) : fromN3 E false txt = .term (.lit x d l) := by
   have := n3_roundtrip_partial E false (.lit x d l) txt hE hw (by simp [TextStable, newLex, wsNorm, hd.1, hd.2]) h
   simpa [Term.plain] using this
+
+/-! ### with a namespace manager on both sides -/
+
+/-- what `namespace_manager.normalizeUri` may answer for the IRI `u` (C17): the angle-bracket form, or a
+    prefixed name whose prefix the manager binds to a namespace which, followed by the local part, is `u` -/
+def IriSpelling (tbl : List (Str × Str)) (u txt : Str) : Prop :=
+  txt = '<' :: u ++ ['>'] ∨
+  ∃ p l ns, txt = p ++ ':' :: l ∧ GoodPrefix p ∧ dlookup p tbl = some ns ∧ ns ++ l = u ∧ '"' ∉ p ∧ '^' ∉ p
+
+/-- `from_n3(t.n3(nsm), nsm=nsm) == t`: the manager's bindings reach the reader also for the datatype of a literal -/
+def Statement_n3_roundtrip_nsm : Prop :=
+  ∀ (E : Ext) (nz : Bool) (tbl : List (Str × Str)) (t : Term) (txt : Str), ExtOK E → E.nsm = some tbl →
+    WFText E t → TextStable E nz t → (∀ u, isValidUri u = true → IriSpelling tbl u (E.qname u)) →
+    n3Q E t = some txt → fromN3 E nz txt = .term t.plain
+
+theorem litN3Q_no_dt (E : Ext) (x : Str) (l : Option Str) : litN3Q E x none l = litN3 E x none l := by
+  simp [litN3Q, litN3, truthy]
+
+theorem n3_roundtrip_nsm : Statement_n3_roundtrip_nsm := by
+  intro E nz tbl t txt hE hn hw hst hQ h
+  have iriCase : ∀ s : Str, isValidUri s = true → fromN3 E nz (E.qname s) = .term (.node .uri s) := by
+    intro s hv
+    rcases hQ s hv with e | ⟨p, l, ns, e, hp, hl, hu, _, _⟩
+    · rw [e]; exact fromN3_iri E hE nz s hv
+    · rw [e, fromN3_qname E hE nz tbl hn p l ns hp hl, hu]
+  cases t with
+  | node c s =>
+    cases c with
+    | bnode => simp only [n3Q, Option.some.injEq] at h; subst h; exact fromN3_bnode E hE nz s
+    | var => simp only [n3Q, Option.some.injEq] at h; subst h; exact fromN3_var E hE nz s
+    | uri =>
+      simp only [n3Q] at h
+      split at h
+      · next hv => simp only [Option.some.injEq] at h; subst h; exact iriCase s hv
+      · cases h
+    | genid =>
+      simp only [n3Q] at h
+      split at h
+      · next hv => simp only [Option.some.injEq] at h; subst h; exact iriCase s hv
+      · cases h
+    | rgenid =>
+      simp only [n3Q] at h
+      split at h
+      · next hv => simp only [Option.some.injEq] at h; subst h; exact iriCase s hv
+      · cases h
+  | lit x d l =>
+    simp only [n3Q, Option.some.injEq] at h
+    subst h
+    cases d with
+    | none =>
+      rw [litN3Q_no_dt]
+      exact n3_roundtrip_partial E nz (.lit x none l) _ hE hw hst rfl
+    | some u =>
+      obtain ⟨hxor, htag, hdt, hinf⟩ := hw
+      have hl : l = none := by
+        rcases hxor with h' | h'
+        · exact h'
+        · cases h'
+      subst hl
+      obtain ⟨hne, hvu⟩ := hdt u rfl
+      rcases hQ u hvu with e | ⟨p, q, ns, e, hp, hlk, hu, hpq, hph⟩
+      · -- the manager answered `<u>`: the same text as without a manager
+        have htxt : litN3Q E x (some u) none = litN3 E x (some u) none := by
+          cases u with
+          | nil => exact absurd rfl hne
+          | cons c r =>
+            rw [litN3Q_dt E x c r (hinf _ rfl) (by rw [e]; simp), litN3_dt E x c r (hinf _ rfl), e]
+            simp
+        rw [htxt]
+        exact n3_roundtrip_partial E nz (.lit x (some u) none) _ hE ⟨Or.inl rfl, htag, hdt, hinf⟩ hst rfl
+      · have hqu : ∀ c ∈ q, c ∈ u := fun c hc => hu ▸ List.mem_append_right ns hc
+        have hquote : '"' ∉ p ++ ':' :: q := by
+          intro hm
+          rcases List.mem_append.mp hm with hm | hm
+          · exact hpq hm
+          · rcases List.mem_cons.mp hm with e' | hm
+            · revert e'; decide
+            · exact mem_invalid_of_not_valid hvu quote_invalid (hqu _ hm)
+        have hhat : '^' ∉ p ++ ':' :: q := by
+          intro hm
+          rcases List.mem_append.mp hm with hm | hm
+          · exact hph hm
+          · rcases List.mem_cons.mp hm with e' | hm
+            · revert e'; decide
+            · exact mem_invalid_of_not_valid hvu hat_invalid (hqu _ hm)
+        have hs : '"' ∉ '^' :: '^' :: (p ++ ':' :: q) := by
+          intro hm
+          rcases List.mem_cons.mp hm with e' | hm
+          · revert e'; decide
+          · rcases List.mem_cons.mp hm with e' | hm
+            · revert e'; decide
+            · exact hquote hm
+        have hnonempty : E.qname u ≠ [] := by
+          rw [e]; obtain ⟨⟨a, r, rfl, _⟩, _⟩ := hp; simp
+        have htxt : litN3Q E x (some u) none = quoteEncode x ++ ('^' :: '^' :: (p ++ ':' :: q)) := by
+          cases u with
+          | nil => exact absurd rfl hne
+          | cons c r => rw [litN3Q_dt E x c r (hinf _ rfl) hnonempty, e]
+        simp only [TextStable] at hst
+        rw [htxt, fromN3_quoteEncode E nz x _ hs, litFromParts_qdt E hE nz tbl hn x p q ns hp hlk hhat, hu]
+        simp [mkLit, Rd.ofExcept, hst, Term.plain]
 
 /-- `URIRef.n3` refuses exactly the IRIs with a character of `_invalid_uri_chars` -/
 def Statement_n3_guard : Prop :=
@@ -511,7 +614,8 @@ def exLit : Term := .lit ['a', '"', '\\', '\n', '"'] none (some ['e', 'n'])
 
 example : ExtOK drvExt :=
   ⟨fun _ _ => rfl, by decide, by decide, fun s => ⟨lower s, by simp [drvExt, lower, lowerChar]⟩,
-   fun s => ⟨lower s, by simp [drvExt, lower, lowerChar]⟩⟩
+   fun s => ⟨lower s, by simp [drvExt, lower, lowerChar]⟩, by decide,
+   fun s h => List.mem_map.mpr ⟨':', h, by decide⟩⟩
 example : WFText drvExt exLit := by
   refine ⟨Or.inr rfl, ?_, ?_, ?_⟩
   · intro t h; cases h; decide
@@ -520,6 +624,12 @@ example : WFText drvExt exLit := by
 example : TextStable drvExt false exLit := by simp [TextStable, exLit, newLex, wsNorm]
 example : n3 drvExt exLit = some "\"\"\"a\"\\\\\n\\\"\"\"\"@en".toList := by decide
 example : fromN3 drvExt false "\"\"\"a\"\\\\\n\\\"\"\"\"@en".toList = .term exLit := by decide
+def exTbl : List (Str × Str) := [(['e', 'x'], "http://e/".toList), (['x'], "urn:x:".toList)]
+example : fromN3 { drvExt with nsm := some exTbl } false "\"1\"^^ex:dt".toList =
+    .term (.lit ['1'] (some "http://e/dt".toList) none) := by decide
+example : IriSpelling exTbl "http://e/dt".toList "ex:dt".toList :=
+  Or.inr ⟨['e', 'x'], ['d', 't'], "http://e/".toList, rfl, ⟨⟨'e', ['x'], rfl, by decide⟩, by decide⟩, by decide, rfl,
+    by decide, by decide⟩
 example : eqb (.lit ['a'] none (some ['e', 'n'])) (.lit ['a'] none (some ['E', 'N'])) = true := by decide
 example : Reachable drvExt exLit :=
   .lit false ['a', '"', '\\', '\n', '"'] (some ['e', 'n']) none _ (by simp [mkLit, newLex, wsNorm, exLit]; decide)
